@@ -14,6 +14,7 @@ import Precis.Facts.DpMiscId
 import Precis.Facts.DpMiscFf
 import Precis.Facts.IdVsFree
 import Precis.Facts.IanaDomain
+import Precis.Facts.HasCompatCode
 namespace Precis.C14
 open Precis Precis.Step Precis.Spec Precis.Facts
 
@@ -82,6 +83,23 @@ theorem non_scalar_invalid (cls : Cls) (cp : Nat) (h : isScalar cp = false) :
     have := SF.all_zip_at _ _ _ non_scalar_check_ff cp
     simp only [← derivedProp_sf, nonScalar_at, h] at this
     simpa using this
+
+/-- HasCompat (step Q of the decision list) as the Rust text computes it — `char::from_u32(cp)` fails: false; otherwise
+`c.to_string() != c.to_string().nfkc()` — over the normalizer model.  The classification model looks the value up in the
+graph of `has_compat` dumped from the implementation; this theorem says that graph IS the code-shaped definition, for
+every natural number (kernel-checked entry by entry against the regenerated normalization tables). -/
+theorem has_compat_is_code (cp : Nat) : hasCompat cp = (isScalar cp && (nfkc [cp] != [cp])) := by
+  have h := Facts.has_compat_code cp
+  unfold Facts.hasCompatCode at h
+  unfold hasCompat
+  exact h.symm
+
+/-- consequently: surrogates and values above U+10FFFF never have HasCompat, Hangul syllables and every character
+without a compatibility decomposition do not either -/
+theorem has_compat_scalar (cp : Nat) (h : hasCompat cp = true) : isScalar cp = true := by
+  rw [has_compat_is_code] at h
+  simp only [Bool.and_eq_true] at h
+  exact h.1
 
 /-- every 32-bit value (indeed every natural number) has exactly one derived property in each class:
 classification cannot fail or panic — `derivedProp` is a total function and the comparison used by
